@@ -74,6 +74,12 @@ def wf_macros(m) -> bool:
 
 
 @spec
+def wf_arg(a) -> bool:
+    """a gate argument: a plain value; macro parameters are untyped (Jaqal cannot annotate them)"""
+    return plain_value(a) and implies(type_is(a, Parameter), a._kind == ParamType.NONE)
+
+
+@spec
 def wf_count(c) -> bool:
     """a loop or subcircuit count inside a macro body: a literal, a let constant, or an untyped macro parameter"""
     return is_int(c) or type_is(c, Constant) or (type_is(c, Parameter) and c._kind == ParamType.NONE)
@@ -89,13 +95,13 @@ def wf_body(o) -> bool:
                 and (same(o._iterations, 1) if not o._subcircuit else wf_count(o._iterations))
                 and forall_range(len(o._statements), lambda k: wf_body(o._statements[k])))
     return (type_is(o, GateStatement) and isinstance(o._parameters, dict) and isinstance(o._gate_def, AbstractGate)
-            and forall_keys(o._parameters, lambda k: plain_value(dict_lookup(o._parameters, k))))
+            and forall_keys(o._parameters, lambda k: wf_arg(dict_lookup(o._parameters, k))))
 
 
 @spec
 def wf_replacer(v) -> bool:
     return (type_is(v, GateReplacer) and isinstance(v.arguments, dict) and wf_macros(v.macros)
-            and forall_keys(v.arguments, lambda k: plain_value(dict_lookup(v.arguments, k))))
+            and forall_keys(v.arguments, lambda k: wf_arg(dict_lookup(v.arguments, k))))
 
 
 @contract("core.algorithm.expand_macros:GateReplacer.visit_default", props=["C04", "C10"])
@@ -109,17 +115,49 @@ class ReplDefault:
     raises_only = ()
 
 
-@assumed("core.algorithm.expand_macros:GateReplacer.visit_GateStatement", props=["C04", "C10"])
-class ReplGateAssumed:
-    """Assumed (the argument substitution is a dict comprehension over a visitor dispatch, outside pyvc's subset):
-    the result is what replace_gate returns for the substituted call - by ReplaceGate a well-formed statement in
-    normal form."""
+@spec
+def subst_arg(v, a):
+    """C04: what substitution puts in place of a non-qubit argument: the call's argument for a bound parameter,
+    the argument itself otherwise"""
+    if type_is(a, Parameter) and has_key(v.arguments, a._name):
+        return dict_lookup(v.arguments, a._name)
+    return a
+
+
+@assumed("core.algorithm.expand_macros:GateReplacer.visit_NamedQubit", props=["C04"])
+class ReplQubitAssumed:
+    """Assumed (register/parameter indexing with its name formatting is outside pyvc's subset; the index
+    arithmetic it ends in is Register.__getitem__ / NamedQubit.__init__, proved under C14): re-indexing a qubit
+    gives a qubit."""
+
+    def requires(self, qubit):
+        return wf_replacer(self) and isinstance(qubit, NamedQubit)
+
+    def ensures(self, qubit, result):
+        return isinstance(result, NamedQubit)
+
+    raises_only = ("JaqalError",)
+
+
+@contract("core.algorithm.expand_macros:GateReplacer.visit_GateStatement", props=["C04", "C10"])
+class ReplGate:
+    """substituting into a call: every non-qubit argument becomes subst_arg of it (a bound parameter is replaced
+    by exactly the call's argument, everything else stays), the definition called is unchanged; a call to a
+    native gate comes back as that one statement, a call to a macro as its (recursively substituted) body"""
 
     def requires(self, gate):
-        return wf_replacer(self) and type_is(gate, GateStatement)
+        return wf_replacer(self) and type_is(gate, GateStatement) and wf_body(gate)
 
     def ensures(self, gate, result):
         return wf_stmt(result) and nf(result)
+
+    def ensures_native(self, gate, result):
+        return implies(not has_key(self.macros, gate._gate_def._name),
+                       type_is(result, GateStatement) and same(result._gate_def, gate._gate_def) and isinstance(result._parameters, dict)
+                       and forall_range(dict_len(gate._parameters), lambda j: has_key(result._parameters, dict_key_at(gate._parameters, j))
+                                        and implies(not isinstance(dict_val_at(gate._parameters, j), NamedQubit),
+                                                    same(dict_lookup(result._parameters, dict_key_at(gate._parameters, j)),
+                                                         subst_arg(self, dict_val_at(gate._parameters, j))))))
 
     raises_only = ("JaqalError",)
 
